@@ -214,3 +214,215 @@ pub mod map32 {
         }
     }
 }
+
+/// The page-resource layer over a private `Map32`: several `CommonPageResource`s (one per
+/// discontiguous "space") share one map, exactly as the spaces of a plan share `VM_MAP`; plus the
+/// process-global SFT map, which `Map32::free_contiguous_chunks` clears and `Space::grow_space`
+/// writes (`dpr::sft_update` stands for the latter).
+pub mod dpr {
+    use crate::policy::sft::{GCWorkerMutRef, SFT};
+    use crate::plan::tracing::OptionObjectQueue;
+    use crate::util::heap::layout::verif_private::Map32;
+    use crate::util::heap::layout::VMMap;
+    use crate::util::heap::pageresource::CommonPageResource;
+    use crate::util::{Address, ObjectReference};
+    use std::collections::HashMap;
+    use std::sync::Mutex;
+
+    /// Private `Map32` + `CommonPageResource::new(false, true, map)` per space.
+    pub struct Dpr {
+        // dropped before `map` (declaration order): the page resources hold a reference into it
+        prs: Vec<CommonPageResource>,
+        map: Box<Map32>,
+    }
+
+    impl Dpr {
+        /// `Map32::new()`, `finalize_static_space_map(from, to, |_| {})`, `spaces` page resources.
+        pub fn new(from: Address, to: Address, spaces: usize) -> Self {
+            let map = Box::new(Map32::new());
+            map.finalize_static_space_map(from, to, &mut |_| {});
+            // The page resources never outlive `map` (see the field order), so the reference they
+            // keep is valid for as long as they exist.
+            let r: &'static Map32 = unsafe { &*(&*map as *const Map32) };
+            let prs = (0..spaces).map(|_| CommonPageResource::new(false, true, r)).collect();
+            Dpr { prs, map }
+        }
+        /// Number of page resources.
+        pub fn spaces(&self) -> usize {
+            self.prs.len()
+        }
+        /// `CommonPageResource::grow_discontiguous_space(descriptor, chunks, None)`.
+        pub fn grow(&self, sp: usize, raw_descriptor: usize, chunks: usize) -> Address {
+            self.prs[sp].grow_discontiguous_space(super::desc::from_raw(raw_descriptor), chunks, None)
+        }
+        /// `CommonPageResource::release_discontiguous_chunks(chunk)`.
+        pub fn release(&self, sp: usize, chunk: Address) {
+            self.prs[sp].release_discontiguous_chunks(chunk)
+        }
+        /// `CommonPageResource::release_all_chunks()`.
+        pub fn release_all(&self, sp: usize) {
+            self.prs[sp].release_all_chunks()
+        }
+        /// `CommonPageResource::get_head_discontiguous_region()`.
+        pub fn head(&self, sp: usize) -> Address {
+            self.prs[sp].get_head_discontiguous_region()
+        }
+        /// `get_next_contiguous_region(start)`
+        pub fn next_region(&self, start: Address) -> Address {
+            self.map.get_next_contiguous_region(start)
+        }
+        /// `get_contiguous_region_chunks(start)`
+        pub fn region_chunks(&self, start: Address) -> usize {
+            self.map.get_contiguous_region_chunks(start)
+        }
+        /// `get_available_discontiguous_chunks()`
+        pub fn available(&self) -> usize {
+            self.map.get_available_discontiguous_chunks()
+        }
+        /// `get_descriptor_for_address(addr)`, raw bits.
+        pub fn descriptor(&self, addr: Address) -> usize {
+            super::desc::raw(self.map.get_descriptor_for_address(addr))
+        }
+        /// `prev_link[chunk]` (verification accessor).
+        pub fn prev_link(&self, chunk: usize) -> i32 {
+            self.map.verif_prev_link(chunk)
+        }
+    }
+
+    /// A stand-in for a space in the SFT map: only its name is ever asked.
+    struct NamedSft(&'static str);
+
+    impl SFT for NamedSft {
+        fn name(&self) -> &'static str {
+            self.0
+        }
+        fn is_live(&self, _object: ObjectReference) -> bool {
+            unimplemented!()
+        }
+        #[cfg(feature = "sanity")]
+        fn is_sane(&self) -> bool {
+            unimplemented!()
+        }
+        #[cfg(feature = "object_pinning")]
+        fn pin_object(&self, _object: ObjectReference) -> bool {
+            unimplemented!()
+        }
+        #[cfg(feature = "object_pinning")]
+        fn unpin_object(&self, _object: ObjectReference) -> bool {
+            unimplemented!()
+        }
+        #[cfg(feature = "object_pinning")]
+        fn is_object_pinned(&self, _object: ObjectReference) -> bool {
+            unimplemented!()
+        }
+        fn is_movable(&self) -> bool {
+            unimplemented!()
+        }
+        #[cfg(feature = "vo_bit")]
+        fn is_mmtk_object(&self, _addr: Address) -> Option<ObjectReference> {
+            unimplemented!()
+        }
+        #[cfg(feature = "vo_bit")]
+        fn find_object_from_internal_pointer(&self, _ptr: Address, _max_search_bytes: usize) -> Option<ObjectReference> {
+            unimplemented!()
+        }
+        fn initialize_object_metadata(&self, _object: ObjectReference, _bytes: usize) {
+            unimplemented!()
+        }
+        fn sft_trace_object(&self, _queue: &mut OptionObjectQueue, _object: ObjectReference, _worker: GCWorkerMutRef) -> ObjectReference {
+            unimplemented!()
+        }
+    }
+
+    static NAMED: Mutex<Option<HashMap<usize, &'static NamedSft>>> = Mutex::new(None);
+
+    fn named(id: usize) -> &'static NamedSft {
+        let mut g = NAMED.lock().unwrap_or_else(|e| e.into_inner());
+        g.get_or_insert_with(HashMap::new)
+            .entry(id)
+            .or_insert_with(|| Box::leak(Box::new(NamedSft(Box::leak(format!("s{id}").into_boxed_str())))))
+    }
+
+    /// Is the process-global SFT map chunk-granular (`SFTSparseChunkMap`: any layout with
+    /// `force_use_contiguous_spaces == false`)? Also makes sure the map exists.
+    pub fn sft_is_sparse() -> bool {
+        super::map32::ensure_global_sft_map();
+        !crate::util::heap::vm_layout::vm_layout().force_use_contiguous_spaces
+    }
+
+    /// `SFT_MAP.update(space, start, bytes)` — what `Space::grow_space` does when the page resource
+    /// reports a new chunk — with a stand-in space called `s<id>`.
+    pub fn sft_update(id: usize, start: Address, bytes: usize) {
+        unsafe { crate::mmtk::SFT_MAP.update(named(id) as *const NamedSft as *const (dyn SFT + Sync + 'static), start, bytes) }
+    }
+
+    /// `SFT_MAP.clear(chunk_start)`.
+    pub fn sft_clear(chunk_start: Address) {
+        unsafe { crate::mmtk::SFT_MAP.clear(chunk_start) }
+    }
+
+    /// `SFT_MAP.get_checked(addr).name()`.
+    pub fn sft_name(addr: Address) -> &'static str {
+        crate::mmtk::SFT_MAP.get_checked(addr).name()
+    }
+
+    /// `SFT_MAP.has_sft_entry(addr)`.
+    pub fn sft_has_entry(addr: Address) -> bool {
+        crate::mmtk::SFT_MAP.has_sft_entry(addr)
+    }
+}
+
+/// The region lists of the discontiguous spaces of a live plan, walked from each page resource's
+/// own head through the global `VM_MAP`.
+pub mod regions {
+    use crate::policy::space::Space;
+    use crate::util::Address;
+    use crate::vm::VMBinding;
+    use crate::MMTK;
+
+    /// One space: name, raw descriptor, contiguous?, head of its region list, and the regions
+    /// `(start, chunks)` reached from that head by `get_next_contiguous_region` (at most `limit`).
+    pub struct SpaceRegions {
+        /// space name
+        pub name: &'static str,
+        /// raw descriptor bits
+        pub descriptor: usize,
+        /// contiguous space (no region list)
+        pub contiguous: bool,
+        /// `CommonPageResource::get_head_discontiguous_region()`
+        pub head: Address,
+        /// `(region start, get_contiguous_region_chunks)` from the head
+        pub regions: Vec<(Address, usize)>,
+    }
+
+    /// Walk every space of the plan (in `for_each_space` order).
+    pub fn space_regions<VM: VMBinding>(mmtk: &MMTK<VM>, limit: usize) -> Vec<SpaceRegions> {
+        let mut out = Vec::new();
+        mmtk.get_plan().for_each_space(&mut |s: &dyn Space<VM>| {
+            let c = s.common();
+            let pr = s.get_page_resource();
+            let head = pr.common().get_head_discontiguous_region();
+            let mut regions = Vec::new();
+            if !c.contiguous {
+                let mut r = head;
+                while !r.is_zero() && regions.len() < limit {
+                    regions.push((r, pr.vm_map().get_contiguous_region_chunks(r)));
+                    r = pr.vm_map().get_next_contiguous_region(r);
+                }
+            }
+            out.push(SpaceRegions {
+                name: s.get_name(),
+                descriptor: super::desc::raw(c.descriptor),
+                contiguous: c.contiguous,
+                head,
+                regions,
+            });
+        });
+        out
+    }
+
+    /// `VM_MAP.get_available_discontiguous_chunks()`.
+    pub fn available_chunks() -> usize {
+        crate::mmtk::VM_MAP.get_available_discontiguous_chunks()
+    }
+}
